@@ -57,10 +57,12 @@ var c19Pool = []string{
 	`$.kv.keyvalue().value.double()`, `$.kv.keyvalue() ? (@.value.double() > 1).key`, `$ ? (exists(@.kv.keyvalue().value.double()))`, `strict $.kv.keyvalue().value.integer()`,
 	`strict $.big[*].x`, `strict $.big[*].x ? (@ > 100)`, `strict $.big[0 to 7].x ? (@ > 100)`, `strict $.a[*] ? (@ > 100)`, `strict $.big[*].x.double()`, `$.big[*].x ? (@ > 6)`, `$vf + $vi`, `$vn.string()`, `$arr[0] + $vn`,
 	`$.i == 1`, `$.a[*] > 1`, `exists($.a ? (@ > 2))`, `($.i == "x") is unknown`, `$.i == 1 && $.f > 1`, `!($.s == "x")`, `$.x.y.z`, `$.a.b.c`, `$.a[*].foo`, `$.list[1 to last].x`, `$.list[*].t.date().string()`,
+	// precisions above 6 (capped, with whatever bookkeeping goes with that), a key that is missing next to its case variants
+	`$.tsz.timestamp_tz(7).string()`, `$.tm.time(9).string()`, `$.ts.timestamp(8)`, `$.tmz.time_tz(7)`, `strict $.key`, `strict $.list[*].X`, `strict $.kv.A`,
 }
 
 var c19Docs = []string{
-	`{"a":[1,2,3],"aa":[[1,2,3],[4],[5],[6,7]],"i":1,"f":1.5,"n":"12","s":"abc1","o":{"b":2},"bools":["t",0],"list":[{"x":1,"y":"ab","t":"2023-08-15"},{"x":2,"y":"Abc","t":"2023-08-17"},{"x":"a","y":"b","z":1,"t":"2023-08-15"}],"d":"2023-08-15","tm":"12:34:56","tmz":"12:34:56+01:00","ts":"2023-08-15T12:34:56","tsz":"2023-08-15T12:34:56.789+01:00","kv":{"a":1.5,"b":"x","c":2,"d":"y","e":3,"f":"z"},"big":[{"x":1},{"x":2},{"x":3},{"x":4},{"x":5},{"x":6},{"x":7},{"x":8},{"y":9}]}`,
+	`{"Key":1,"KEY":2,"kEy":3,"a":[1,2,3],"aa":[[1,2,3],[4],[5],[6,7]],"i":1,"f":1.5,"n":"12","s":"abc1","o":{"b":2},"bools":["t",0],"list":[{"x":1,"y":"ab","t":"2023-08-15"},{"x":2,"y":"Abc","t":"2023-08-17"},{"x":"a","y":"b","z":1,"t":"2023-08-15"}],"d":"2023-08-15","tm":"12:34:56","tmz":"12:34:56+01:00","ts":"2023-08-15T12:34:56","tsz":"2023-08-15T12:34:56.789+01:00","kv":{"a":1.5,"b":"x","c":2,"d":"y","e":3,"f":"z"},"big":[{"x":1},{"x":2},{"x":3},{"x":4},{"x":5},{"x":6},{"x":7},{"x":8},{"y":9}]}`,
 	`{"a":[],"i":0,"f":-0.5,"n":"x","s":"","o":{},"bools":[],"list":[],"d":"bad","tm":"","tmz":"","ts":"","tsz":""}`,
 	`[1,[2,[3,[4]]],{"b":{"b":1}}]`, `null`, `"just a string"`, `42`, `{"a":{"b":{"c":1}},"i":[0],"x":{"y":{"z":[1,2]}}}`,
 	`{"a":[3,2,1],"aa":[[],[7,8,9,10,11],[12]],"i":2,"f":1e10,"n":"2147483648","s":"ab\nc","o":{"b":2},"bools":["yes","no",1],"list":[{"x":5,"y":"a.c"}],"d":"2024-02-29","tm":"23:59:59.999","tmz":"00:00:00Z","ts":"2024-02-29 23:59:59","tsz":"2024-02-29T23:59:59-08:00"}`,
